@@ -11,16 +11,69 @@ TECH = ("bounded symbolic execution of the real desolver source on polynomial-no
 NOTE_COMMON = ("Arithmetic over the reals, not IEEE-754 (rounding/overflow/dtype outside the claim); bounded (see evidence 'bounds'); "
                "harness-process shims listed in evidence 'assumptions'; solver 'unknown' or a killed worker is reported inconclusive, never success.")
 
+def _entry(category, text, ref, note_extra=""):
+    return dict(category=category, text=text, design_ref=ref, note=NOTE_COMMON + (" " + note_extra if note_extra else ""))
+
+
 CHECKS = {
-    "C17": dict(
-        category="other",
-        text=("For every array length up to the bound, every strictly increasing real array and every real query (scalar and vector), "
-              "z3 shows on every feasible path of the real search_bisection/search_bisection_vec that the returned index is the first "
-              "element >= query (clipped) and that both agree; the real CubicHermiteInterp is shown exact (value and gradient) on the "
-              "general cubic with symbolic coefficients, interval of either orientation, symbolic evaluation point, scalar and array data. "
-              "Bounded exhaustive over paths, universal over real inputs per path - stronger than the grid enumeration in the property text."),
-        design_ref="DESIGN.md section 3 / C17",
-        note=NOTE_COMMON + " Array lengths <= 6 (quick) / 7 (thorough); vector queries <= 2 / 3."),
+    "C01": _entry("other",
+        "Order conditions are computed by the real stage loop: for every rooted tree up to the declared order (quick: <= 7) the polynomial tree "
+        "system is integrated for one symbolic step h by the real integrator __call__ of every shipped class (explicit, implicit via exact Picard roots "
+        "of the real algebraic_system, splitting schemes on bicoloured trees, Richardson wrappers with 2..5 levels) and z3 decides for all h that the "
+        "root component equals h^n/gamma(tau) within 2^-23 relative; embedded rows and the c column are checked the same way. Bounded by tree order; "
+        "universal over h.", "DESIGN.md 3/C01",
+        "Butcher's theorem and the local->global convergence theorem are the trusted mathematical base; RadauIIA19 orders 11..19 via simplifying assumptions B,C,D."),
+    "C02": _entry("other",
+        "Every RK/splitting class is executed symbolically on (t, h != 0 of either sign, y) with a right-hand side returning fresh symbols per call; per call z3 decides "
+        "that the i-th stage is evaluated at (t + c_i h, y + h sum a_ij K_j), the increment is h sum b_i K_i, stage_values hold K, two consecutive calls; splitting "
+        "schemes: the stated drift/kick composition; implicit: the real algebraic_system equals K - f(...), the accepted increment is that of the returned root and "
+        "a step is never accepted unless the last stage solve reported success and prec < tol (else FailedToMeetTolerances after 64 retries).", "DESIGN.md 3/C02",
+        "optimizer.nonlinear_roots replaced by the verdict_root contract stub; embedded pairs use the ctrl stub."),
+    "C03": _entry("other",
+        "OdeSystem.__init__/integrate run symbolically with t0, tf, dt0 and later targets as arbitrary reals (any sign, either direction, dt larger or smaller than the span); "
+        "all feasible paths within N steps: first row (t0,y0), paired rows, strictly monotone toward the target, no overshoot, ends within 64 eps*scale of the target, "
+        "status completed, termination within the step bound; one call and sequences of integrate(t) calls incl. reversal and already-there.", "DESIGN.md 3/C03",
+        "|tf-t0| <= N*|dt0| with N = 3 (quick) / 5 (thorough)."),
+    "C04": _entry("other",
+        "Same symbolic runs restricted to |dt0| <= span: every recorded step but the last has magnitude |dt0| and none is longer (implicit: shorter only after a failed stage solve); "
+        "product runs in one path: span shifted by a symbolic constant and the time-reflected problem integrated backward give term-identical states (autonomous congruent rhs).",
+        "DESIGN.md 3/C04", "Known finding c04.implicit_step_growth is reported as KNOWN-FINDING."),
+    "C05": _entry("other",
+        "Partial claim (second sentence): the real retry loop with h of either sign - every retry strictly smaller and same sign, result is the last attempt, all-reject raises "
+        "FailedToMeetTolerances (FailedIntegration through OdeSystem, no row recorded); the REAL update_timestep / implicit_aware_update_timestep decided in isolation with "
+        "axiomatised pow/arctan: corr in (0.2, 2.6), redo <=> corr < 0.81, accept => scaled error <= 1, error >= 4 => redo; Richardson re-entry shrinks and terminates.",
+        "DESIGN.md 3/C05", "First sentence (global error proportional to tolerances) is NOT claimed: not solver-decidable with a useful bound."),
+    "C06": _entry("other",
+        "With dense output on, t0, tf, dt0 and a query q symbolic: sol(t_i) = y_i; the piece chosen by find_interval and find_interval_vec contains q for every q in the integrated "
+        "range, both directions; pieces contiguous in step order with end values = recorded states and end slopes = f at the recorded states (congruent uninterpreted rhs: stale "
+        "slopes are caught); continuation in a second call; Richardson pieces cover the step.", "DESIGN.md 3/C06", "O(h^4) interpolation error bound is outside the claim."),
+    "C11": _entry("other",
+        "For all 16 implicit classes, R = P/Q built at run time from the exact rational values of the float64 tableau entries: z3 proves |R(z)|^2 <= 1+1e-9 and det(I - zA) != 0 for ALL z "
+        "with Re z <= 0 (two-variable queries for <= 3 stages; Hermite-Biehler interlacing certificate + axis bound + maximum modulus for every class incl. RadauIIA19); the real "
+        "RungeKuttaIntegrator.step on y'=lambda*y, a 2x2 rotation block and a diagonal pair with the exact-root stub satisfies Q(z)(y+dY) = P(z)y.", "DESIGN.md 3/C11",
+        "Slack 1e-9 on |R|^2 (rounded coefficients). Trusted base for RadauIIA19: Hermite-Biehler theorem, maximum-modulus principle."),
+    "C12": _entry("fault_enumeration",
+        "Crash points enumerated exhaustively within the bound (every rhs-evaluation index / callback invocation of runs of <= N steps, three exception kinds, 5 method families), "
+        "each instance universal over t0, tf, dt0: FailedIntegration with the injected cause (KeyboardInterrupt as itself), status, recorded rows = prefix of the fault-free twin run, "
+        "dense output one piece per recorded step, resume reaches tf with the prefix intact and pieces equal to the uninterrupted run, reset() restores a pristine system.",
+        "DESIGN.md 3/C12", "N = 2 (quick) / 3 + two successive faults (thorough). Event-function faults are exercised in the C07-C09 harness."),
+    "C13": _entry("other",
+        "All operation sequences up to the length bound over {integrate, integrate(T), set dt/tol/method, set_kick_vars, integrate with an event, faulting integrate, reset} with symbolic "
+        "arguments: integrate() at the target is a no-op; reset() restores (t0,y0), no events, empty dense output, dt0, nfev 0, status 0 and the next run (rows and dense pieces) is "
+        "term-identical to a fresh system's; caller's y0/constants untouched; split runs keep the rows before the split.", "DESIGN.md 3/C13",
+        "bit-for-bit is decided as term identity over R; adaptive 'within tolerance' not claimed."),
+    "C17": _entry("other",
+        "For every array length up to the bound, every strictly increasing real array and every real query (scalar and vector), z3 shows on every feasible path of the real "
+        "search_bisection/search_bisection_vec that the returned index is the first element >= query (clipped) and that both agree; CubicHermiteInterp is exact (value and gradient) "
+        "on the general cubic with symbolic coefficients, interval of either orientation, symbolic evaluation point, scalar and array data.", "DESIGN.md 3/C17",
+        "Array lengths <= 6 (quick) / 7 (thorough); vector queries <= 2 / 3."),
+    "C19": _entry("other",
+        "On symbolic trajectories (forward, backward, continued, ctrl-adaptive): every integer index in [-len-2, len+2] has sequence semantics, iteration yields each row once in order, "
+        "a lookup at an arbitrary real time returns a recorded sample nearest in time (dense: (q, sol(q))), a slice spanning the run returns the run.", "DESIGN.md 3/C19"),
+    "C20": _entry("other",
+        "Independent counters inside the user rhs / Jacobian: on every feasible path of explicit, FSAL+rejection, splitting, implicit (user Jacobian and real finite-difference "
+        "JacobianWrapper) runs nfev equals the completed user calls at every callback and at the end, also after faults and reset; callbacks in the given order, after the new row "
+        "is visible, once per recorded step; a dt assigned by a callback is the magnitude of the next attempted step.", "DESIGN.md 3/C20"),
 }
 
 NOT_APPLICABLE = [
